@@ -1,4 +1,5 @@
 // Set an environment variable for the test dir.
 fn main() {
+    println!("cargo:rustc-check-cfg=cfg(suiron_verif)");
     println!("cargo:rustc-env=SUIRON_TEST_DIR=./tests");
 }
